@@ -19,9 +19,11 @@ Proof. exact ahead_spec. Qed.
 Print Assumptions C05_ahead_abs.
 
 (* consume n drops exactly n bytes of the abstract stream and advances the position by n, or
-   reports FATAL when fewer than n bytes are left (client without skip/seek callbacks). *)
+   reports FATAL when fewer than n bytes are left - for a client without a seek callback whose skip
+   callback, if offered, is honest (skips at most what it is asked, possibly less or nothing, and
+   reports it truthfully; any plan of such answers). *)
 Theorem C05_consume_abs : forall s req r s',
-  Inv s -> ffatal s = false -> plain (cl s) -> consume s req = (r, s') ->
+  Inv s -> ffatal s = false -> skippable (cl s) -> consume s req = (r, s') ->
   Inv s' /\ ffatal s' = false /\ same_client_cfg (cl s) (cl s') /\
   ((req < 0)%Z /\ r = ARCHIVE_FATAL /\ s' = s \/
    (0 <= req <= Z.of_N (len (rest s)))%Z /\ r = req /\
@@ -41,11 +43,21 @@ Theorem C05_partition_independent : forall (R : Type) (p : parser R) data plan1 
 Proof. exact @partition_independent. Qed.
 Print Assumptions C05_partition_independent.
 
-(* the same from any two reachable core states that abstract to the same stream *)
+(* the same from any two reachable core states that abstract to the same stream; the two clients may
+   differ in their partitions AND in how their (honest) skip callbacks answer *)
 Theorem C05_parser_independent : forall (R : Type) (p : parser R), wf_parser p -> forall s1 s2,
   good s1 -> good s2 -> rest s1 = rest s2 -> fst (prun p s1) = fst (prun p s2).
 Proof. exact @parser_independent. Qed.
 Print Assumptions C05_parser_independent.
+
+(* a client offering an honest skip callback with an arbitrary plan of short skips observes the same
+   as one without *)
+Theorem C05_skip_capability_transparent : forall (R : Type) (p : parser R) data plan1 plan2 sk,
+  wf_parser p -> Forall good_ract plan1 -> Forall good_ract plan2 -> Forall honest_sact sk ->
+  fst (prun p (init_filt (mkClient data 0 plan1 sk [] true false))) =
+  fst (prun p (init_filt (mk_plain_client data plan2))).
+Proof. exact @skip_transparent. Qed.
+Print Assumptions C05_skip_capability_transparent.
 
 (* non-vacuity: a 3-block and a 20-block partition of the same 20 bytes, a request spanning blocks *)
 Definition ex_data : bytes := map N.of_nat (seq 65 20).
